@@ -1,13 +1,19 @@
 package store
 
 import (
+	"context"
 	"fmt"
+	"sync"
 	"os"
 	"path/filepath"
 	"strings"
+	"sync/atomic"
 	"testing"
 	"testing/synctest"
+	"time"
 
+	"github.com/tailscale/setec/client/setec"
+	"github.com/tailscale/setec/types/api"
 	"verifharness/vh"
 )
 
@@ -31,6 +37,14 @@ var profiles = map[string]Profile{
 		AllowLookup: []bool{true, true, false}, Expiry: []int64{0}, CacheKinds: []string{"none", "empty"},
 		Deadlines: []int64{0}, LookupDl: []int64{0, 0, 10000, 60000}, AdvanceMs: []int64{5000, 10000, 100000, 300000},
 		Weights: map[string]int{"respond": 20, "fail": 10, "svc": 6, "advance": 22, "lookup": 25, "cancel": 8, "read": 5, "handle": 4, "refresh": 4}, Steps: 50},
+	"reads": {Name: "reads", Names: allNames, Callers: allCallers, Declared: [][]string{{"a"}, {"a", "b"}}, Auto: true,
+		AllowLookup: []bool{true, true, false}, Expiry: []int64{0, 30000}, CacheKinds: []string{"undeclared", "empty", "complete"},
+		Deadlines: []int64{0}, LookupDl: []int64{0, 10000}, AdvanceMs: []int64{1000, 31000},
+		Weights: map[string]int{"respond": 30, "fail": 6, "svc": 16, "advance": 8, "refresh": 10, "tick": 6, "read": 16, "handle": 10, "lookup": 6, "close": 2, "restart": 2}, Steps: 70},
+	"creads": {Name: "creads", Names: allNames, Callers: allCallers, Declared: [][]string{{"a"}, {"a", "b"}}, Auto: true, Readers: 3,
+		AllowLookup: []bool{true, true, false}, Expiry: []int64{0, 30000}, CacheKinds: []string{"undeclared", "empty", "complete"},
+		Deadlines: []int64{0}, LookupDl: []int64{0, 10000}, AdvanceMs: []int64{1000, 31000},
+		Weights: map[string]int{"respond": 34, "fail": 5, "svc": 16, "advance": 8, "refresh": 10, "tick": 6, "read": 2, "handle": 10, "lookup": 6, "close": 2, "restart": 2}, Steps: 45},
 	"expiry": {Name: "expiry", Names: allNames, Callers: allCallers, Declared: [][]string{{"a"}},
 		AllowLookup: []bool{true}, Expiry: []int64{0, 30000, 30000}, CacheKinds: []string{"undeclared", "zerostamp", "empty"},
 		Deadlines: []int64{0}, LookupDl: []int64{0}, AdvanceMs: []int64{10000, 30000, 31000, 1000},
@@ -49,12 +63,21 @@ func TestStoreRandom(t *testing.T) {
 	n := vh.EnvInt("VERIF_TRACES", 50)
 	w := vh.NewNDJSON(t, filepath.Join(dir, "trace.ndjson"))
 	events := 0
+	var curEnv atomic.Pointer[Env]
+	stop := startWatchdog(t, res, func() []Event {
+		if e := curEnv.Load(); e != nil {
+			return e.Events()
+		}
+		return nil
+	})
+	defer stop()
 	for h := 0; h < n; h++ {
 		r := vh.Rand(int64(1000*h) + int64(len(prof)))
 		var evs []Event
 		var notes []string
 		synctest.Test(t, func(t *testing.T) {
 			e := NewEnv(p.Names)
+			curEnv.Store(e)
 			RandomHistory(e, r, p)
 			evs = e.Events()
 			notes = append(notes, e.Notes...)
@@ -83,7 +106,7 @@ func TestStoreRandom(t *testing.T) {
 	}
 	w.Close()
 	dw := vh.NewNDJSON(t, filepath.Join(dir, "dict.ndjson"))
-	dw.Put(map[string]any{"names": p.Names, "callers": p.Callers, "maxver": 3})
+	dw.Put(map[string]any{"names": p.Names, "callers": p.Callers, "readers": []string{"r1", "r2", "r3"}, "maxver": 3})
 	dw.Close()
 	res.Set("histories", n)
 	res.Set("events", events)
@@ -95,4 +118,155 @@ func firstWords(s string) string {
 		return s[:60]
 	}
 	return s
+}
+
+// startWatchdog runs outside any bubble, on the real clock: a handle call that has been in progress
+// for 20 s of real time while no other handle call completed is a call that waited for something
+// (handle calls take nanoseconds). The history so far is reported and the process ends, because a
+// bubble with a goroutine stuck on a lock can never become idle.
+func startWatchdog(t *testing.T, res *vh.Result, events func() []Event) (stop func()) {
+	quit := make(chan struct{})
+	go func() {
+		last, since := ReadsDone.Load(), time.Now()
+		for {
+			select {
+			case <-quit:
+				return
+			case <-time.After(200 * time.Millisecond):
+			}
+			if d := ReadsDone.Load(); d != last || InRead.Load() == 0 {
+				last, since = d, time.Now()
+				continue
+			}
+			if time.Since(since) > 20*time.Second {
+				res.Violate("store-note handle call blocked", "a handle call has been blocked for 20 s of real time (it waits for a lock or a request); history so far attached",
+					map[string]any{"history": events()})
+				res.Write(t)
+				os.Exit(0)
+			}
+		}
+	}()
+	return func() { close(quit) }
+}
+
+// stressClient serves ever-increasing versions; every poll finds a new one for every name.
+type stressClient struct {
+	mu  sync.Mutex
+	ver map[string]int
+}
+
+func (c *stressClient) bump() {
+	c.mu.Lock()
+	for n := range c.ver {
+		c.ver[n]++
+	}
+	c.mu.Unlock()
+}
+func (c *stressClient) Get(ctx context.Context, name string) (*api.SecretValue, error) {
+	c.mu.Lock()
+	defer c.mu.Unlock()
+	v, ok := c.ver[name]
+	if !ok {
+		return nil, api.ErrNotFound
+	}
+	return &api.SecretValue{Value: Value(name, v), Version: api.SecretVersion(v)}, nil
+}
+func (c *stressClient) GetIfChanged(ctx context.Context, name string, old api.SecretVersion) (*api.SecretValue, error) {
+	c.mu.Lock()
+	defer c.mu.Unlock()
+	v := c.ver[name]
+	if int(old) == v {
+		return nil, api.ErrValueNotChanged
+	}
+	return &api.SecretValue{Value: Value(name, v), Version: api.SecretVersion(v)}, nil
+}
+
+// TestReadStress (C12, under the race detector): 8 reader goroutines call handles as fast as they can while
+// polls install new versions, new names are looked up, the expiry sweep runs and finally Close is called.
+// The service's versions only grow and each poll installs what it found, so every reader must see, per name,
+// whole values of that name with non-decreasing versions, and after a completed poll nothing older than it
+// installed. The interleavings are the scheduler's; the oracle is the order property of Store.tla (InstLast).
+func TestReadStress(t *testing.T) {
+	res := vh.NewResult(t, "store-stress")
+	runs := vh.EnvInt("VERIF_TRACES", 10)
+	reads := 0
+	for run := 0; run < runs; run++ {
+		cl := &stressClient{ver: map[string]int{"a": 1, "b": 1, "x": 1, "y": 1}}
+		var clock atomic.Int64
+		clock.Store(1_000_000)
+		st, err := setec.NewStore(context.Background(), setec.StoreConfig{Client: cl, Secrets: []string{"a", "b"}, AllowLookup: true,
+			PollInterval: -1, ExpiryAge: 30 * time.Second, Logf: func(string, ...any) {}, Cache: setec.NewMemCache(""),
+			TimeNow: func() time.Time { return time.Unix(clock.Load(), 0) }})
+		if err != nil {
+			t.Fatal(err)
+		}
+		var floor [4]atomic.Int64 // per name: version installed by the last completed poll
+		idx := map[string]int{"a": 0, "b": 1, "x": 2, "y": 3}
+		var wg sync.WaitGroup
+		stop := make(chan struct{})
+		var nreads atomic.Int64
+		for g := 0; g < 8; g++ {
+			wg.Add(1)
+			go func(g int) {
+				defer wg.Done()
+				hs := map[string]setec.Secret{"a": st.Secret("a"), "b": st.Secret("b")}
+				last := map[string]int{}
+				for i := 0; ; i++ {
+					select {
+					case <-stop:
+						return
+					default:
+					}
+					if i%50 == g && len(hs) < 4 {
+						for _, n := range []string{"x", "y"} {
+							if h, err := st.LookupSecret(context.Background(), n); err == nil {
+								hs[n] = h
+							}
+						}
+					}
+					for n, h := range hs {
+						fl := int(floor[idx[n]].Load())
+						b := h.Get()
+						nreads.Add(1)
+						pn, v, whole := ParseValue(b)
+						if !whole || pn != n {
+							res.Violate("store-stress torn", fmt.Sprintf("handle of %q returned a torn or foreign value %q", n, b), nil)
+							return
+						}
+						if v < last[n] {
+							res.Violate("store-stress order", fmt.Sprintf("reader %d saw %q go back from version %d to %d", g, n, last[n], v), nil)
+							return
+						}
+						if v < fl {
+							res.Violate("store-stress stale", fmt.Sprintf("reader %d read version %d of %q after a poll that installed %d had completed", g, v, n, fl), nil)
+							return
+						}
+						last[n] = v
+					}
+				}
+			}(g)
+		}
+		for p := 0; p < 60; p++ {
+			cl.bump()
+			clock.Add(7)
+			if err := st.Refresh(context.Background()); err != nil {
+				res.Violate("store-stress refresh", fmt.Sprintf("Refresh failed: %v", err), nil)
+			}
+			cl.mu.Lock()
+			for n, i := range idx {
+				if n == "a" || n == "b" {
+					floor[i].Store(int64(cl.ver[n]))
+				}
+			}
+			cl.mu.Unlock()
+		}
+		st.Close()
+		time.Sleep(2 * time.Millisecond)
+		close(stop)
+		wg.Wait()
+		reads += int(nreads.Load())
+	}
+	res.Set("runs", runs)
+	res.Set("reads", reads)
+	res.Write(t)
 }
